@@ -355,7 +355,7 @@ def rule_insert_after_terminated(ctx, rep, rule_id="R-INSERT-AFTER-TERMINATED"):
         "be the last line of the file), the line before the insertion is first given a line ending if it has none "
         "(`if not head[-1].endswith(\"\\n\"): head[-1] += eol`).  A manifest without a final newline otherwise gets `flask    new-package` on "
         "one line: an invalid requirement, the old one lost, and a diff that shows a separate added line",
-        min_instances=2,
+        min_instances=1,
     )
     n = 0
     for fn in ctx.prog.live_functions():
